@@ -13,7 +13,28 @@ CFG = ("INIT HInit\nNEXT HNext\nCONSTRAINT HCon\nCONSTANTS\n Keys <- MCKeys\n"
        " Vals <- MCVals\n Deletable <- MCDeletable\n Presets <- MCPresets\n"
        " TempVers <- MCTempVers\n Feats <- MCFeats\n MaxDepth = {d}\n"
        "CHECK_DEADLOCK FALSE\n")
-FEATS = ("emodulus", "time", "fl1_max_ctc", "area_ratio")
+FEATS = ("emodulus", "time", "fl1_max_ctc", "area_ratio", "verif_plug_area",
+         "verif_plug_time")
+# which features an observation reads, and in which order, is free (a read
+# returns Fresh whatever was read before): chosen per history
+COMPUTED_AREA = [False]     # variant: area_um computed from area_cvx
+
+
+def register_plugins():
+    from dclab.rtdc_dataset.feat_anc_plugin import plugin_feature as pf
+    from dclab.rtdc_dataset.feat_anc_core import AncillaryFeature
+    if "verif_plug_area" in AncillaryFeature.feature_names:
+        return
+    pf.PlugInFeature("verif_plug_area", {
+        "method": lambda ds: {"verif_plug_area": 2 * np.asarray(
+            ds["area_um"][:], dtype=float)},
+        "feature names": ["verif_plug_area"],
+        "features required": ["area_um"], "scalar feature": [True]})
+    pf.PlugInFeature("verif_plug_time", {
+        "method": lambda ds: {"verif_plug_time": 3 + np.asarray(
+            ds["time"][:], dtype=float)},
+        "feature names": ["verif_plug_time"],
+        "features required": ["time"], "scalar feature": [True]})
 LUT_ID = "VERIF-2D-LAT-01"
 KEYMAP = {"lut": ("calculation", "emodulus lut", lambda v: LUT_ID),
           "medium": ("calculation", "emodulus medium", str),
@@ -63,6 +84,8 @@ def new_ds(cfg, temp):
     data = base_data()
     if TWOCHAN[0]:
         data.pop("fl3_max")
+    if COMPUTED_AREA[0]:
+        data.pop("area_um")
     ds = dclab.new_dataset(data)
     ds.config["setup"]["flow rate"] = 0.04
     ds.config["setup"]["channel width"] = 20.0
@@ -110,7 +133,7 @@ _FRESH = {}
 
 
 def fresh(cfg, temp, f):
-    key = (tuple(sorted(cfg.items())), temp, f, TWOCHAN[0])
+    key = (tuple(sorted(cfg.items())), temp, f, TWOCHAN[0], COMPUTED_AREA[0])
     if key not in _FRESH:
         _FRESH[key] = read(new_ds(cfg, temp), f)
     return _FRESH[key]
@@ -123,8 +146,16 @@ def descr(cfg, temp):
 
 
 def _replay(job):
-    case, two = job
-    TWOCHAN[0] = two
+    import zlib
+    case, variant = job
+    TWOCHAN[0] = variant == "two"
+    COMPUTED_AREA[0] = variant == "area"
+    two = TWOCHAN[0]
+    crc = zlib.crc32(repr((case["init"], case["h"], variant)).encode())
+    rot = crc % len(FEATS)
+    order = FEATS[rot:] + FEATS[:rot]
+    if crc % 3 == 0:
+        order = order[:1]
     cfg0, temp0 = case["init"]["cfg"], case["init"]["temp"]
     ds = new_ds(cfg0, temp0)
     out = []
@@ -144,7 +175,7 @@ def _replay(job):
             ds._usertemp["temp"] = TEMP[st["ver"]]
         if not state["observe"]:
             continue
-        for f in FEATS:
+        for f in order:
             has, got = read(ds, f)
             fhas, want = fresh(state["cfg"], state["temp"], f)
             ctx = "%s, keys %s" % (st["a"] + " " + st.get("k", "temp"),
@@ -180,7 +211,8 @@ def _replay(job):
                 if not same(got, w2):
                     out.append(("scenario C uses the temp feature", ctx, i))
     return {"init": descr(cfg0, temp0), "steps": steps,
-            "fl_channels": 2 if two else 3}, out
+            "fl_channels": 2 if two else 3, "reads": list(order),
+            "area_um": "computed" if COMPUTED_AREA[0] else "stored"}, out
 
 
 RO_CFG = ("INIT Init\nNEXT Next\nCONSTRAINT Emit\nINVARIANT HistoryFree\n"
@@ -249,7 +281,10 @@ def main(tier, seed, replay=None):
                "feature absent/v1/v2, every sequence of up to MaxDepth edits "
                "(set/change/delete a [calculation]/[imaging] key, set/replace "
                "the temp feature), each followed or not by reading and "
-               "availability-testing emodulus, time, fl1_max_ctc, area_ratio; "
+               "availability-testing a per-history choice (one feature, or all "
+               "in a rotated order) of emodulus, time, fl1_max_ctc, "
+               "area_ratio and two plug-in features that depend on the "
+               "computed area_um / time (area_um stored or computed); "
                "every read is compared with a freshly constructed dataset "
                "holding the same data and the current configuration, `in` "
                "with whether the read succeeds, and scenario C with the same "
@@ -271,9 +306,13 @@ def main(tier, seed, replay=None):
     cases = res.tagged("H")
     if not q and len(cases) > 150000:
         cases = par.sample(cases, len(cases) // 150000 + 1, seed)
-    jobs = [(c, False) for c in cases]
-    jobs += [(c, True) for c in cases
+    register_plugins()
+    jobs = [(c, "plain") for c in cases]
+    jobs += [(c, "two") for c in cases
              if any(st.get("k", "").startswith("ct") for st in c["h"])]
+    jobs += [(c, "area") for c in cases
+             if any(st.get("k", "") in ("pixel", "framerate")
+                    for st in c["h"])]
     for case, viols in par.pmap(_replay, jobs, chunk=100):
         ev.traces += 1
         ev.case(case, nontrivial=case["init"] != "")
